@@ -1,2 +1,48 @@
--- stub: replaced by the conc engine driver
-def main : IO Unit := pure ()
+/-
+Line-protocol driver for the Conc engine (C27 PD allocator, C20 latches, C33 directory lock,
+C32 watermark).  Reply format: `<model>\t<spec>`; spec patterns: `*` anything, `a|b`
+alternatives, `pre*` prefix.
+
+Every op is executed by running micro-steps of the same `step` functions the theorems are about;
+the driver only fixes a scheduling policy ("run thread t up to its next yield point").
+-/
+import Driver.Lib
+import Driver.ConcPD
+import Driver.ConcLatch
+import Driver.ConcDirLock
+import Driver.ConcWM
+
+open Driver
+
+structure CSt where
+  pd : ConcPD.DSt := {}
+  latch : ConcLatch.DSt := {}
+  dl : ConcDirLock.DSt := {}
+  wm : ConcWM.DSt := {}
+
+def step (st : CSt) (toks : List String) : CSt × String :=
+  match toks with
+  | "cfg" :: kvs =>
+    match kvs.foldlM (fun (s : CSt) kv =>
+        match ConcPD.setCfg s.pd kv, ConcLatch.setCfg s.latch kv, ConcDirLock.setCfg s.dl kv, ConcWM.setCfg s.wm kv with
+        | some p, some l, some dl, some wm => some { s with pd := p, latch := l, dl := dl, wm := wm }
+        | _, _, _, _ => none) st with
+    | some st' => (st', "ok")
+    | none => (st, "bad-cfg")
+  | op :: _ =>
+    if op.startsWith "pd." then
+      let (p, out) := ConcPD.step st.pd toks
+      ({ st with pd := p }, out)
+    else if op.startsWith "latch." then
+      let (l, out) := ConcLatch.step st.latch toks
+      ({ st with latch := l }, out)
+    else if op.startsWith "dl." then
+      let (l, out) := ConcDirLock.step st.dl toks
+      ({ st with dl := l }, out)
+    else if op.startsWith "wm." then
+      let (l, out) := ConcWM.step st.wm toks
+      ({ st with wm := l }, out)
+    else (st, "bad-op")
+  | [] => (st, "bad-op")
+
+def main : IO Unit := Driver.loop ({} : CSt) step
